@@ -6,6 +6,7 @@ import (
 	"fmt"
 	"github.com/ethereum/go-ethereum/event"
 	"math/big"
+	"sync"
 	"time"
 
 	"github.com/ethereum/go-ethereum/accounts/abi/bind"
@@ -78,6 +79,46 @@ type contractPayment struct {
 	backend      bind.ContractBackend
 	balanceCache balanceCache
 	transactOpts *bind.TransactOpts
+
+	settleMu sync.Mutex
+	settling map[common.Address]common.Hash // Settlements that were submitted, until their Balance event arrives
+}
+
+// startSettling remembers that a settlement of the account's balance was
+// submitted as txHash.
+func (p *contractPayment) startSettling(addr common.Address, txHash common.Hash) {
+	p.settleMu.Lock()
+	defer p.settleMu.Unlock()
+	if p.settling == nil {
+		p.settling = map[common.Address]common.Hash{}
+	}
+	p.settling[addr] = txHash
+}
+
+// resetSettling forgets all outstanding settlements.
+func (p *contractPayment) resetSettling() {
+	p.settleMu.Lock()
+	defer p.settleMu.Unlock()
+	p.settling = nil
+}
+
+// acceptBalanceEvent returns whether a Balance event of the account, emitted
+// by the transaction txHash, says something new. A settlement sets the
+// balance to a value that the pool knows (and caches) from the moment it
+// submits it; until the settlement's own event arrives, every other event of
+// the account describes a state from before it.
+func (p *contractPayment) acceptBalanceEvent(addr common.Address, txHash common.Hash) bool {
+	p.settleMu.Lock()
+	defer p.settleMu.Unlock()
+	settlement, ok := p.settling[addr]
+	if !ok {
+		return true
+	}
+	if settlement != txHash {
+		return false
+	}
+	delete(p.settling, addr)
+	return true
 }
 
 // GetNodeBalance proxies the normal store implementation
@@ -145,6 +186,10 @@ func (p *contractPayment) SubscribeBalance(ctx context.Context, handler func(acc
 			select {
 			case balanceEvent := <-sink:
 				account := store.Account(balanceEvent.Account.Hex())
+				if !p.acceptBalanceEvent(balanceEvent.Account, balanceEvent.Raw.TxHash) {
+					logger.Printf("SubscribeBalance: Skipping event from before the outstanding settlement of account: %s", account)
+					continue
+				}
 				logger.Printf("SubscribeBalance: Processing event for account: %s", account)
 				// In order, a later event must not be overtaken by an
 				// earlier one.
@@ -179,6 +224,7 @@ func (p *contractPayment) SubscribeBalance(ctx context.Context, handler func(acc
 			lastErr = time.Now()
 			// Events were missed while the subscription was down, what is
 			// cached can be stale: start over with a new subscription.
+			p.resetSettling()
 			p.balanceCache.Reset(0)
 			if sub, sink, err = watch(); err != nil {
 				logger.Printf("SubscribeBalance failed to subscribe again: %s", err)
@@ -256,6 +302,9 @@ func (p *contractPayment) OpSettle(account store.Account, paymentAmount *big.Int
 	// The deposit that was just paid out must not be served from the cache
 	// anymore. The Balance event only arrives once the transaction is mined,
 	// a withdrawal repeated before that would be paid the same deposit again.
+	// Neither must an event from before the settlement that is still on its way
+	// bring it back.
+	p.startSettling(addr, txn.Hash())
 	p.balanceCache.Set(account, new(big.Int).Set(newBalance))
 	return txn.Hash().Hex(), nil
 }
